@@ -45,19 +45,21 @@ ScopeShapes(c) == Join(IF D!GlobalKindConflict(c) THEN KfGlobal ELSE "", EnShape
 Checks(o) ==
   LET c    == D!CaseOfJ(o.case)
       Rend == Rng(o.rendered)
+      \* a chart without templates contributes nothing that is rendered (its dependencies do)
+      Tpl(X) == {P \in X : ~c.charts[D!ChartAt(c, P)].notpl}
       \* the enabled set the property demands (where it leaves two readings open, the one observed if it is one of them)
-      E    == IF Rend \in D!ExpEs(c) THEN Rend ELSE D!ExpE(c)
+      E    == IF \E S \in D!ExpEs(c) : Tpl(S) = Rend THEN CHOOSE S \in D!ExpEs(c) : Tpl(S) = Rend ELSE D!ExpE(c)
       SeenAt(P) == Rng((CHOOSE s \in Rng(o.seen) : s.P = P).leaves)
       Both == E \cap Rend
       \* what the code-shaped model predicts (evaluated only when a strict check fails)
       EC   == D!EnabledCode(c)
-      SeenAsCode == Rend = EC /\ \A P \in Rend : SeenAt(P) = D!CodeScope(c, P)
+      SeenAsCode == Rend = Tpl(EC) /\ \A P \in Rend : SeenAt(P) = D!CodeScope(c, P)
       Crd(X) == {P \in X : c.charts[D!ChartAt(c, P)].crds}
       Bad(X) == {P \in X : D!SchemaOf(c, P) # <<>> /\ ~D!SchemaValid(D!SchemaOf(c, P), SeenAt(P))}
       \* history route
       RawC(X) == {D!RawPath(c, P) : P \in Crd(X)}
-      Want(cx, X) == IF X \in D!ExpEs(cx) THEN X ELSE D!ExpE(cx)
-      UpIs(u, W) == Rng(u.manifest) = W /\ Rng(u.hooks) = W /\ Rng(u.stored) = W
+      Want(cx, X) == IF \E S \in D!ExpEs(cx) : Tpl(S) = X THEN CHOOSE S \in D!ExpEs(cx) : Tpl(S) = X ELSE D!ExpE(cx)
+      UpIs(u, W) == Rng(u.manifest) = Tpl(W) /\ Rng(u.hooks) = Tpl(W) /\ Rng(u.stored) = W
       \* (an upgrade the schema gate rejected produced nothing to judge)
       UpOK(u)     == u.schema \/ (u.ok /\ UpIs(u, Want(D!CaseFor(c, u.mode), Rng(u.manifest))))
       UpAsCode(u) == u.schema \/ (u.ok /\ UpIs(u, D!EnabledCode(D!CaseFor(c, u.mode))))
@@ -67,7 +69,7 @@ Checks(o) ==
       Chk(n, v, shapes, asCode) == [n |-> n, kind |-> "prop", v |-> v, kf |-> IF v THEN "" ELSE IF shapes # "" /\ asCode THEN shapes ELSE ""]
   IN <<
     \* a dependency is rendered iff it is enabled; an alias makes it appear under the alias only
-    Chk("C11_Rendered", o.aok /\ Rend = E, en, o.aok /\ Rend = EC),
+    Chk("C11_Rendered", o.aok /\ Rend = Tpl(E), en, o.aok /\ Rend = Tpl(EC)),
     \* own values: exactly those destined for the chart; nothing of a parent or sibling; no defaults of a disabled dependency
     Chk("C11_ScopeOwn", o.aok => \A P \in Both : D!ScopeOwnOK(c, E, P, SeenAt(P)), sc, o.aok /\ SeenAsCode),
     \* globals flow down, the ancestor's setting wins
@@ -75,16 +77,16 @@ Checks(o) ==
     \* a disabled dependency brings no schema check; an enabled one with violated schema is named
     Chk("C11_SchemaChecks",
         o.aok => (IF Bad(Both) = {} THEN ~o.schemaErr ELSE o.schemaErr /\ Rng(o.named) = {D!NameOf(P) : P \in Bad(Both)}),
-        en, o.aok /\ Rend = EC /\ (IF Bad(EC) = {} THEN ~o.schemaErr ELSE o.schemaErr /\ Rng(o.named) = {D!NameOf(P) : P \in Bad(EC)})),
+        en, o.aok /\ Rend = Tpl(EC) /\ (IF Bad(Tpl(EC)) = {} THEN ~o.schemaErr ELSE o.schemaErr /\ Rng(o.named) = {D!NameOf(P) : P \in Bad(Tpl(EC))})),
     \* templates, hooks, CRDs and notes of exactly the enabled instances reach the release
-    Chk("C11_Manifest", o.bok => Rng(o.manifest) = E, en, Rng(o.manifest) = EC),
-    Chk("C11_Hooks",    o.bok => Rng(o.hooks) = E,    en, Rng(o.hooks) = EC),
-    Chk("C11_Notes",    o.bok => Rng(o.notes) = E,    en, Rng(o.notes) = EC),
+    Chk("C11_Manifest", o.bok => Rng(o.manifest) = Tpl(E), en, Rng(o.manifest) = Tpl(EC)),
+    Chk("C11_Hooks",    o.bok => Rng(o.hooks) = Tpl(E),    en, Rng(o.hooks) = Tpl(EC)),
+    Chk("C11_Notes",    o.bok => Rng(o.notes) = Tpl(E),    en, Rng(o.notes) = Tpl(EC)),
     Chk("C11_Crds",     o.bok => Rng(o.crds) = Crd(E), en, Rng(o.crds) = Crd(EC)),
     \* real install: the CRDs of exactly the enabled instances reach the cluster (a rejected install may have sent fewer, never others)
     Chk("C11_InstallCrds", o.hist => (Rng(o.icrds) \subseteq RawC(E) /\ (o.iok => Rng(o.icrds) = RawC(E))),
         en, Rng(o.icrds) \subseteq RawC(EC) /\ (o.iok => Rng(o.icrds) = RawC(EC))),
-    Chk("C11_InstallManifest", o.hist => ((o.iok \/ o.ischema) /\ (o.iok => Rng(o.imanifest) = E)), en, o.iok /\ Rng(o.imanifest) = EC),
+    Chk("C11_InstallManifest", o.hist => ((o.iok \/ o.ischema) /\ (o.iok => Rng(o.imanifest) = Tpl(E))), en, o.iok /\ Rng(o.imanifest) = Tpl(EC)),
     \* an upgrade without values: the carried-over values decide what is enabled ...
     Chk("C11_UpgradeCarries", \A u \in Ups({"upgrade"}) : UpOK(u), en, \A u \in Ups({"upgrade"}) : UpAsCode(u)),
     Chk("C11_UpgradeReuses", \A u \in Ups({"upgrade-reuse", "upgrade-reset-then-reuse"}) : UpOK(u), en,
